@@ -75,6 +75,12 @@ func (l *Lexer) ReadChar() {
 	l.readPosition++
 }
 
+// atEOF reports whether the lexer has consumed the whole input. CurrentChar is 0
+// there, but a NUL byte inside the input is not the end of it.
+func (l *Lexer) atEOF() bool {
+	return l.position >= len(l.input)
+}
+
 // PeekChar returns the next character without advancing the lexer position.
 func (l *Lexer) PeekChar() byte {
 	if l.readPosition >= len(l.input) {
@@ -104,7 +110,7 @@ func (l *Lexer) readLeadingComments() {
 			l.ReadChar()
 
 			var comment strings.Builder
-			for l.CurrentChar != '\n' && l.CurrentChar != 0 {
+			for l.CurrentChar != '\n' && !l.atEOF() {
 				comment.WriteByte(l.CurrentChar)
 				l.ReadChar()
 			}
@@ -260,7 +266,7 @@ func (l *Lexer) readString(delimiter byte) string {
 
 	for {
 		l.ReadChar()
-		if l.CurrentChar == 0 {
+		if l.atEOF() {
 			break
 		}
 		// Handle escape sequences
@@ -405,7 +411,7 @@ func (l *Lexer) readRawString() string {
 	var result strings.Builder
 	for {
 		l.ReadChar()
-		if l.CurrentChar == 0 {
+		if l.atEOF() {
 			break
 		}
 		// Handle escaped backticks
